@@ -745,7 +745,7 @@ func init() {
 		Rule: "commits: author name/message in {'',a,a\\nb,\\xff,65535,65536,70000 bytes} x email x 0..3 parents x time {zero,0,1,2^31,-1,9999999999,10^10} x zone {UTC,+05:30,-07:00,+14:00,+00:00:30}; commit time zones: every offset -14:00..+14:00 in one-minute steps (and +30 s) x 3 instants; tables: 0..3 column names from {'',a,bb,65535,65536 bytes} x every key x {0,1,2,3,255,256,4096,4097,8193} blocks x last-block fill; " +
 			"blocks: 1,2,3,254,255 rows x 1..3 columns x one special cell (quotes, newline, delimiter, non-UTF8, 65535/65536/70000 bytes) at every position x rows crossing 64 KiB x key; block index built both ways; table profiles with every subset of optional fields; string/uint lists of 0..3 elements; " +
 			"packfile header: every length 1..2^26 (thorough: every 32-bit length) for type 1 and 2^k+-1024 windows up to 2^63 for types 1..3. Each object is written, read back, compared, re-encoded (bytes must coincide), saved (key = prefix + hash of bytes, saving twice leaves one entry) and fetched; over-limit text must be refused by the writer with an error. " +
-			"non-trivial = a completed round trip or refusal; distinct by case description",
+			"non-trivial = a completed round trip or refusal; distinct by case description. Plus (batched-saves) 2..3 different objects of each kind saved back to back through a store that retains key and value slices until it commits (as a Badger transaction and objbadger.Txn do): each must be found under the hash of its own bytes",
 		Assumptions: []string{"commit time is compared at the format's resolution (Unix second, zone offset in minutes); an instant the 16-byte field cannot hold (>= 10^10 s) may be refused or round-trip", "object length 0 is excluded from the header family (no object is empty)", "field lengths are explored at the 16-bit boundaries only"},
 		Harnesses: []*mc.Harness{
 			{Name: "commit", Body: c06Commit, Budget: map[string]time.Duration{"quick": 40 * time.Second, "thorough": 5 * time.Minute}},
